@@ -10,7 +10,8 @@ COQ_IMPORTS = ['Base.Str', 'Base.Value', 'Proc.RowOps', 'Proc.Resources']
 RULE = ('cases = packages of 1-5 resources with differing schemas and sizes (0, 1, few, 250; thorough: >1000 rows) x '
         'concatenate (field mappings, selections incl. non-consecutive and empty) / duplicate (position, to_end, batch '
         'sizes 1/7/1000, followed by an in-place edit of the original) / delete_resource / appending sources (iterable, '
-        'load tuple, load datapackage, sources); non-trivial = the package changes; distinct = distinct case digest')
+        'load tuple, load datapackage, sources); non-trivial = the package changes; distinct = distinct case digest'
+        '; round 4: delete_resource by position from either end')
 TRUSTED = ['Coq 8.16.1 kernel + vm_compute', 'harness/p16.py printers and oracle',
            'KVFile as an ordered map (duplicate\'s store), exercised at several batch sizes',
            'resource selection itself is C10\'s subject; here selections are given as explicit name lists']
